@@ -180,7 +180,7 @@ Proof. intros. cbn [next_char]. rewrite adv_false. apply skip_conts_head. assump
 Definition ws_next (rest : bytes) : Prop :=
   match rest with [] => True | b :: _ => ws_char_ok b = true end.
 
-Lemma ws_char_cases : forall b, ws_char_ok b = true -> b = 32 \/ b = 9 \/ b = 10 \/ b = 13.
+Lemma ws_char_cases : forall b, ws_char_ok b = true -> b = 32 \/ b = 9 \/ b = 10 \/ b = 13 \/ b = 11 \/ b = 12.
 Proof.
   intros b H. unfold ws_char_ok in H. repeat rewrite orb_true_iff in H. repeat rewrite Z.eqb_eq in H. tauto.
 Qed.
@@ -193,7 +193,7 @@ Lemma ws_next_stops : forall rest, ws_next rest -> stops not_ws rest.
 Proof.
   intros [|b t] H; [exact I|]. simpl in H. apply ws_char_cases in H. split.
   - apply not_cont_lt. lia.
-  - destruct H as [->|[->|[->| ->]]]; reflexivity.
+  - destruct H as [->|[->|[->|[->|[->| ->]]]]]; reflexivity.
 Qed.
 
 (** * One token *)
@@ -314,7 +314,7 @@ Qed.
 (** * Blanks *)
 Inductive blankb : bytes -> Prop :=
 | bl_nil : blankb []
-| bl_ws : forall c s, c = 32 \/ c = 9 \/ c = 13 -> blankb s -> blankb (c :: s)
+| bl_ws : forall c s, c = 32 \/ c = 9 \/ c = 13 \/ c = 11 \/ c = 12 -> blankb s -> blankb (c :: s)
 | bl_nl : forall s, blankb s -> blankb (10 :: s)
 | bl_com : forall t s, U8 t -> ~ In 10 t -> blankb s -> blankb (35 :: t ++ 10 :: s).
 
@@ -371,7 +371,7 @@ Proof.
       { cbn [cp_at]. replace (c <? 128) with true by (symmetry; apply Z.ltb_lt; lia). reflexivity. }
       rewrite C.
       replace (c =? 10) with false by (symmetry; apply Z.eqb_neq; lia).
-      replace (is_whitespace c) with true by (destruct Hc as [->|[->| ->]]; reflexivity).
+      replace (is_whitespace c) with true by (destruct Hc as [->|[->|[->|[->| ->]]]]; reflexivity).
       rewrite (next_char_head c (s ++ rest) pos SB1).
       fold wsp. rewrite (ws_absorb (s ++ rest) (pos + 1) line ls SB1).
       destruct (accept_while false wsp (s ++ rest) (pos + 1)) as [r2 p2]. reflexivity. }
@@ -455,7 +455,7 @@ Proof.
   cbn [forallb] in H. apply andb_prop in H. destruct H as [Hi Hs].
   unfold render_sep. cbn [flat_map]. fold (render_sep s). specialize (IH Hs).
   destruct i as [c|t]; cbn [render_sep_item sep_item_ok] in *.
-  - apply ws_char_cases in Hi. cbn [app]. destruct Hi as [->|[->|[->| ->]]];
+  - apply ws_char_cases in Hi. cbn [app]. destruct Hi as [->|[->|[->|[->|[->| ->]]]]];
       first [apply bl_nl; assumption | apply bl_ws; [lia | assumption]].
   - destruct (comment_ok_U8 _ Hi) as [U N]. cbn [app]. rewrite <- app_assoc. cbn [app]. apply bl_com; assumption.
 Qed.
